@@ -84,7 +84,8 @@ def initStores (warn : Int) : Bool := warn == 0
 
 /-- the hand-written reference kernels (what the theorems are about); the bridge lemmas of
     Props/C07, C08 show the regenerated kernels equal them -/
-def Kern.model : Kern α := ⟨CopyCfg.byValue, loopFails, initStores, metropolisDecide⟩
+def Kern.model : Kern α :=
+  ⟨CopyCfg.byValue, TopSearch.BH.loopFails, TopSearch.BH.initStores, TopSearch.BH.metropolisDecide⟩
 
 end kernels
 
